@@ -171,3 +171,131 @@ package state
 //@   serves C13
 //@ lemma window_bound(s *State) : InvQ(s) ==> len(s.blocksRequested) <= 10
 //@   serves C13
+
+// ---------------------------------------------------------------------------------------
+// MemPool (C05, C14, C12) and TxTracker (C14)
+
+//@ type MemPool
+//@   guarded_by mutex : txs inputs requests
+
+//@ spec body(m, t) = has(m.txs, t) && len(m.txs[t].outPoints) > 0
+//@ spec InvTx(m) = m.txs != nil && m.requests != nil && m.inputs != nil
+//@      && forall(t bitcoin.Hash32, has(m.txs, t) ==> m.txs[t] != nil)
+//@      && forall(t bitcoin.Hash32, forall(u bitcoin.Hash32, has(m.txs, t) && has(m.txs, u) && t != u ==> m.txs[t] != m.txs[u]))
+
+//@ func (*MemPool).AddRequest
+//@   serves C14 C12
+//@   atomic mutex
+//@   requires InvTx(memPool)
+//@   ensures have: result0 <==> old(body(memPool, txid))
+//@   ensures have_no_request: result0 ==> !result1 && forall(t bitcoin.Hash32, has(memPool.requests, t) == old(has(memPool.requests, t)) && memPool.requests[t] == old(memPool.requests[t]))
+//@   ensures window: result1 ==> !old(has(memPool.requests, txid)) || UnixNano(memPool.requests[txid]) - UnixNano(old(memPool.requests[txid])) > 3000000000
+//@   ensures records: result1 ==> has(memPool.requests, txid) && UnixNano(memPool.requests[txid]) >= old(clock())
+//@   ensures fresh_request: !result0 && !old(has(memPool.requests, txid)) ==> result1
+//@   ensures quiet: !result1 ==> forall(t bitcoin.Hash32, has(memPool.requests, t) == old(has(memPool.requests, t)) && memPool.requests[t] == old(memPool.requests[t]))
+//@   ensures others: forall(t bitcoin.Hash32, t != txid ==> has(memPool.requests, t) == old(has(memPool.requests, t)) && memPool.requests[t] == old(memPool.requests[t]))
+//@   ensures untrusted_never_vouches: !trusted ==> forall(t bitcoin.Hash32, has(memPool.txs, t) && memPool.txs[t].trusted ==> old(has(memPool.txs, t)) && old(memPool.txs[t].trusted))
+//@   ensures bodies: forall(t bitcoin.Hash32, body(memPool, t) == old(body(memPool, t)))
+//@   ensures inputs_same: same(memPool.inputs) && forall(o bitcoin.Hash32, has(memPool.inputs, o) == old(has(memPool.inputs, o)) && memPool.inputs[o] == old(memPool.inputs[o]))
+//@   ensures inv: InvTx(memPool)
+
+//@ type TxTracker
+//@   guarded_by mutex : txids
+
+//@ func (*TxTracker).Add
+//@   serves C14
+//@   atomic mutex
+//@   requires tracker.txids != nil
+//@   ensures tracked: has(tracker.txids, txid)
+//@   ensures keeps_first_time: old(has(tracker.txids, txid)) ==> tracker.txids[txid] == old(tracker.txids[txid])
+//@   ensures others: forall(t bitcoin.Hash32, t != txid ==> has(tracker.txids, t) == old(has(tracker.txids, t)) && tracker.txids[t] == old(tracker.txids[t]))
+
+//@ func (*TxTracker).Remove
+//@   serves C14
+//@   atomic mutex
+//@   ensures gone: !has(tracker.txids, txid)
+//@   ensures others: forall(t bitcoin.Hash32, t != txid ==> has(tracker.txids, t) == old(has(tracker.txids, t)) && tracker.txids[t] == old(tracker.txids[t]))
+
+//@ func (*TxTracker).RemoveList
+//@   serves C14
+//@   atomic mutex
+//@   requires forall(k, 0, len(txids), txids[k] != nil)
+//@   ensures gone: forall(k, 0, len(txids), !has(tracker.txids, *txids[k]))
+//@   ensures others: forall(t bitcoin.Hash32, has(tracker.txids, t) ==> old(has(tracker.txids, t)) && tracker.txids[t] == old(tracker.txids[t]))
+//@   ensures only_listed: forall(t bitcoin.Hash32, old(has(tracker.txids, t)) && !has(tracker.txids, t) ==> exists(k, 0, len(txids), *txids[k] == t))
+//@   loop 0 invariant 0 <= _i && _i <= len(txids)
+//@   loop 0 invariant forall(k, 0, _i, !has(tracker.txids, *txids[k]))
+//@   loop 0 invariant forall(t bitcoin.Hash32, has(tracker.txids, t) ==> old(has(tracker.txids, t)) && tracker.txids[t] == old(tracker.txids[t]))
+//@   loop 0 invariant forall(t bitcoin.Hash32, old(has(tracker.txids, t)) && !has(tracker.txids, t) ==> exists(k, 0, _i, *txids[k] == t))
+//@   loop 0 invariant same(tracker.txids)
+
+//@ spec member(s, x) = exists(c, 0, len(s), s[c] == x)
+//@ spec nodup(s) = forall(a, 0, len(s), forall(b, 0, len(s), a != b ==> s[a] != s[b]))
+//@ spec isprefix(p, s) = len(p) <= len(s) && forall(c, 0, len(p), s[c] == p[c])
+
+//@ func appendIfNotContained
+//@   serves C05
+//@   requires arr(list) != arr(add) || len(add) == 0
+//@   ensures keeps: isprefix(old(list), result)
+//@   ensures {rep} adds: forall(j, 0, len(add), member(result, add[j]))
+//@   ensures {nf} only: forall(c, old(len(list)), len(result), member(add, result[c]))
+//@   ensures nodup: old(nodup(list)) ==> nodup(result)
+//@   ensures frame: oldrowsExcept(add, arr(old(list)))
+//@   ensures where: arr(result) == arr(old(list)) || fresharr(result)
+//@   loop 0 invariant 0 <= _i0 && _i0 <= len(add) && (arr(list) != arr(add) || len(add) == 0)
+//@   loop 0 invariant isprefix(old(list), list)
+//@   loop 0 invariant {rep} forall(j, 0, _i0, member(list, add[j]))
+//@   loop 0 invariant {nf} forall(c, old(len(list)), len(list), member(add, list[c]))
+//@   loop 0 invariant old(nodup(list)) ==> nodup(list)
+//@   loop 0 invariant oldrowsExcept(add, arr(old(list))) && (arr(list) == arr(old(list)) || fresharr(list))
+//@   loop 1 invariant 0 <= _i1 && _i1 <= len(list) && forall(c, 0, _i1, list[c] != addHash)
+
+//@ func (*memPoolTx).populateMemPoolTx
+//@   serves C05
+//@   requires tx != nil && txMsg != nil && forall(k, 0, len(txMsg.TxIn), txMsg.TxIn[k] != nil)
+//@   ensures already: old(len(tx.outPoints)) > 0 ==> same(tx.outPoints) && oldrows(tx.outPoints)
+//@   ensures filled: old(len(tx.outPoints)) == 0 ==> len(tx.outPoints) == len(txMsg.TxIn) && fresharr(tx.outPoints) && oldrows(tx.outPoints)
+//@        && forall(k, 0, len(txMsg.TxIn), tx.outPoints[k] == txMsg.TxIn[k].PreviousOutPoint)
+//@   ensures frame: forall(r *memPoolTx, r != tx ==> same(r.outPoints)) && forall(r *memPoolTx, same(r.trusted, r.time))
+//@   loop 0 invariant 0 <= _i && _i <= len(txMsg.TxIn) && len(tx.outPoints) == _i && fresharr(tx.outPoints) && oldrows(tx.outPoints)
+//@   loop 0 invariant forall(k, 0, _i, tx.outPoints[k] == txMsg.TxIn[k].PreviousOutPoint)
+//@   loop 0 invariant forall(r *memPoolTx, r != tx ==> same(r.outPoints)) && forall(r *memPoolTx, same(r.trusted, r.time))
+
+//@ spec ohIn(tx, k) = OutpointHash(tx.TxIn[k].PreviousOutPoint)
+//@ spec listed(m, o, t) = has(m.inputs, o) && member(m.inputs[o], t)
+//@ spec listedOld(m, o, t) = old(has(m.inputs, o)) && exists(j, 0, old(len(m.inputs[o])), old(m.inputs[o][j]) == t)
+//@ spec InvIn(m) = forall(o bitcoin.Hash32, forall(p bitcoin.Hash32, has(m.inputs, o) && has(m.inputs, p) && o != p ==> arr(m.inputs[o]) != arr(m.inputs[p])))
+//@ spec reqSameExcept(m, id) = forall(t bitcoin.Hash32, t != id ==> has(m.requests, t) == old(has(m.requests, t)) && m.requests[t] == old(m.requests[t]))
+//@ spec inputSame(m, o) = has(m.inputs, o) == old(has(m.inputs, o)) && (has(m.inputs, o) ==> seqeq(m.inputs[o], old(m.inputs[o])))
+
+//@ func (*MemPool).AddTransaction
+//@   serves C05 C14
+//@   atomic mutex
+//@   requires tx != nil && InvTx(memPool) && InvIn(memPool) && forall(k, 0, len(tx.TxIn), tx.TxIn[k] != nil)
+//@   let id = TxHashOf(tx)
+//@   ensures request_cleared: !has(memPool.requests, id) && reqSameExcept(memPool, id)
+//@   ensures dup: old(body(memPool, id)) ==> !result2 && len(result0) == 0 && forall(o bitcoin.Hash32, inputSame(memPool, o))
+//@   ensures added: !old(body(memPool, id)) ==> result2
+//@   ensures body_after: result2 && len(tx.TxIn) > 0 ==> body(memPool, id)
+//@   ensures registered: result2 ==> forall(k, 0, len(tx.TxIn), listed(memPool, ohIn(tx, k), id))
+//@   ensures {rep} reported: result2 ==> forall(k, 0, len(tx.TxIn), old(has(memPool.inputs, ohIn(tx, k))) ==>
+//@        forall(j, 0, old(len(memPool.inputs[ohIn(tx, k)])), member(result0, old(memPool.inputs[ohIn(tx, k)][j]))))
+//@   ensures {nf} no_false: forall(c, 0, len(result0), result0[c] == id || exists(k, 0, len(tx.TxIn), listedOld(memPool, ohIn(tx, k), result0[c])))
+//@   ensures others_untouched: forall(o bitcoin.Hash32, forall(k, 0, len(tx.TxIn), o != ohIn(tx, k)) ==> inputSame(memPool, o))
+//@   ensures keeps_prefix: forall(o bitcoin.Hash32, old(has(memPool.inputs, o)) ==> has(memPool.inputs, o) && isprefix(old(memPool.inputs[o]), memPool.inputs[o]))
+//@   ensures only_id_added: forall(o bitcoin.Hash32, has(memPool.inputs, o) ==> forall(c, ite(old(has(memPool.inputs, o)), old(len(memPool.inputs[o])), 0), len(memPool.inputs[o]), memPool.inputs[o][c] == id))
+//@   ensures nodup: nodup(result0)
+//@   ensures inv: InvTx(memPool) && InvIn(memPool)
+//@   loop 0 invariant 0 <= _i && _i <= len(memTx.outPoints) && len(memTx.outPoints) == len(tx.TxIn) && memTx != nil && txid != nil && *txid == id
+//@   loop 0 invariant forall(k, 0, len(tx.TxIn), memTx.outPoints[k] == tx.TxIn[k].PreviousOutPoint)
+//@   loop 0 invariant same(memPool.inputs, memPool.txs, memPool.requests) && memPool.txs[id] == memTx && has(memPool.txs, id)
+//@   loop 0 invariant fresharr(conflicts) && nodup(conflicts)
+//@   loop 0 invariant forall(k, 0, _i, listed(memPool, ohIn(tx, k), id))
+//@   loop 0 invariant {rep} forall(k, 0, _i, old(has(memPool.inputs, ohIn(tx, k))) ==>
+//@        forall(j, 0, old(len(memPool.inputs[ohIn(tx, k)])), member(conflicts, old(memPool.inputs[ohIn(tx, k)][j]))))
+//@   loop 0 invariant {nf} forall(c, 0, len(conflicts), conflicts[c] == id || exists(k, 0, _i, listedOld(memPool, ohIn(tx, k), conflicts[c])))
+//@   loop 0 invariant forall(o bitcoin.Hash32, forall(k, 0, _i, o != ohIn(tx, k)) ==> inputSame(memPool, o))
+//@   loop 0 invariant forall(o bitcoin.Hash32, old(has(memPool.inputs, o)) ==> has(memPool.inputs, o) && isprefix(old(memPool.inputs[o]), memPool.inputs[o]))
+//@   loop 0 invariant forall(o bitcoin.Hash32, has(memPool.inputs, o) ==> forall(c, ite(old(has(memPool.inputs, o)), old(len(memPool.inputs[o])), 0), len(memPool.inputs[o]), memPool.inputs[o][c] == id))
+//@   loop 0 invariant forall(o bitcoin.Hash32, has(memPool.inputs, o) ==> arr(memPool.inputs[o]) != arr(conflicts))
+//@   loop 0 invariant InvTx(memPool) && InvIn(memPool) && !has(memPool.requests, id) && reqSameExcept(memPool, id)
